@@ -73,9 +73,9 @@ def main():
         "setup_cmd": "true",
         "hooks": {
             "guard": "cfg(kani)",
-            "enable": "no hook commits in /repo: checks copy /repo's working tree to a scratch directory and append `#[cfg(kani)] #[path=...] mod verif_kani;` lines there (add-only); Verus units re-extract function bodies from /repo on every run",
+            "enable": "no hook commits in /repo: checks copy /repo's working tree to a scratch directory (/var/tmp/lc3v, override with VERIF_SCRATCH) and append `#[cfg(kani)] #[path=...] mod verif_kani*;` lines there (add-only); nested functions and the Verus units' function bodies are re-extracted verbatim from /repo on every run; native counterexample replays add --cfg verif_native",
             "baseline_off_cmd": "cd /repo && cargo test --workspace --no-fail-fast --offline",
-            "source_commits": fixes,
+            "source_commits": [],
             "add_only": True,
         },
         "engines": [
@@ -83,7 +83,7 @@ def main():
             {"name": "verus", "path": "/verif/verus", "serves_properties": sorted({p for o in registry.OBL if o["engine"] == "verus" for p in o["properties"]}), "kind_free_text": "Verus 0.2026.09.13 on function bodies extracted verbatim on every run"},
         ],
         "checks": checks,
-        "notes": "Exit codes of ./check: 0 held, 1 violation (VIOLATION line), 2 undecided (tool limit / lost anchor; never an alarm). source_commits lists the unguarded 'fix:' commits (genuine defects repaired); there are no hook commits.",
+        "notes": "Exit codes of ./check: 0 held, 1 violation (VIOLATION line), 2 undecided (tool limit / lost anchor; never an alarm). There are no hook commits in /repo (hooks.source_commits is empty): harness modules are overlaid on a scratch copy under cfg(kani); native replays of counterexamples additionally build the scratch copy with --cfg verif_native (harness code only). Unguarded 'fix:' commits in /repo (genuine defects repaired, see known_findings.json): " + ", ".join(fixes) + ".",
         "not_applicable": [{"property_id": k, "reason": v} for k, v in sorted(NA.items())],
     }
     only = os.environ.get("MANIFEST_ONLY")
